@@ -155,7 +155,7 @@ impl Monitor for C10 {
         v
     }
     fn mandatory_buckets(&self, _tier: Tier) -> Vec<String> {
-        ["full_key_sweeps", "more_than_65536_terms", "binary_round_trip_swept", "obo_loader_swept", "binary_decoder_with_flags", "alternating_lookups", "clone_swept", "id_0_present", "id_9999999_present", "add_beyond_id_space_attempted", "name_queries"]
+        ["full_key_sweeps", "more_than_65536_terms", "binary_round_trip_swept", "obo_loader_swept", "binary_decoder_with_flags", "alternating_lookups", "clone_swept", "iterator_protocol", "id_0_present", "id_9999999_present", "add_beyond_id_space_attempted", "name_queries"]
             .iter()
             .map(|s| (*s).to_string())
             .collect()
@@ -588,6 +588,93 @@ impl Monitor for C10 {
             format!("len() = {}, iter().count() = {}, distinct ids added = {}", ont.len(), it.len(), added.len())
         });
         out.check(ont.is_empty() == added.is_empty(), "C10", "is_empty", || "is_empty disagrees".to_string());
+        // the iterator through the other consumers of the Iterator protocol: every way of walking it
+        // yields every term exactly once and agrees with len()
+        if added.len() <= 70_000 {
+            let n = added.len();
+            bump_n(&mut out.events, "Ontology::iter (count/size_hint/nth/skip/last/fold)", 8);
+            out.bucket("iterator_protocol");
+            let r = guard(|| {
+                let mut bad: Vec<String> = Vec::new();
+                let c = ont.iter().count();
+                if c != n {
+                    bad.push(format!("iter().count() = {c}, len() = {n}"));
+                }
+                let (lo, hi) = ont.iter().size_hint();
+                if lo > n || hi.is_some_and(|h| h < n) {
+                    bad.push(format!("iter().size_hint() = ({lo}, {hi:?}) excludes the real number of terms {n}"));
+                }
+                for k in [1usize, 2, n / 2, n.saturating_sub(1), n, n + 3] {
+                    // k items taken by hand, the rest counted
+                    let mut it = ont.iter();
+                    let mut seen: BTreeSet<u32> = BTreeSet::new();
+                    for _ in 0..k {
+                        if let Some(t) = it.next() {
+                            seen.insert(t.id().as_u32());
+                        }
+                    }
+                    let (lo, hi) = it.size_hint();
+                    let rest = it.count();
+                    let exp_rest = n.saturating_sub(k);
+                    if rest != exp_rest {
+                        bad.push(format!("after {k} next() calls count() = {rest}, expected {exp_rest} (len {n})"));
+                    }
+                    if lo > exp_rest || hi.is_some_and(|h| h < exp_rest) {
+                        bad.push(format!("after {k} next() calls size_hint() = ({lo}, {hi:?}), {exp_rest} terms remain"));
+                    }
+                    let sk = ont.iter().skip(k).count();
+                    if sk != exp_rest {
+                        bad.push(format!("iter().skip({k}).count() = {sk}, expected {exp_rest}"));
+                    }
+                    // the skipped part and the rest together are all terms, none twice
+                    let rest_ids: Vec<u32> = ont.iter().skip(k).map(|t| t.id().as_u32()).collect();
+                    let mut all = seen.clone();
+                    let mut dup = false;
+                    for x in &rest_ids {
+                        dup |= !all.insert(*x);
+                    }
+                    if dup || all != added {
+                        bad.push(format!("first {k} items plus skip({k}) do not partition the terms"));
+                    }
+                    let nth = ont.iter().nth(k).map(|t| t.id().as_u32());
+                    if nth != rest_ids.first().copied() {
+                        bad.push(format!("iter().nth({k}) = {nth:?}, skip({k}).next() = {:?}", rest_ids.first()));
+                    }
+                }
+                let folded = ont.iter().fold(0usize, |a, _| a + 1);
+                if folded != n {
+                    bad.push(format!("fold over iter() visits {folded} terms, len() = {n}"));
+                }
+                let last = ont.iter().last().map(|t| t.id().as_u32());
+                let last2 = ont.iter().map(|t| t.id().as_u32()).collect::<Vec<_>>().last().copied();
+                if last != last2 {
+                    bad.push(format!("iter().last() = {last:?}, last collected item = {last2:?}"));
+                }
+                let mut it = ont.iter();
+                while it.next().is_some() {}
+                if it.next().is_some() || it.count() != 0 {
+                    bad.push("an exhausted iterator yields or counts further terms".to_string());
+                }
+                let hp: BTreeSet<u32> = ont.hpos().map(|t| t.id().as_u32()).collect();
+                if hp != added || ont.hpos().count() != n {
+                    bad.push("hpos() disagrees with iter()".to_string());
+                }
+                let by_ref: BTreeSet<u32> = (&ont).into_iter().map(|t| t.id().as_u32()).collect();
+                if by_ref != added {
+                    bad.push("(&ontology).into_iter() disagrees with iter()".to_string());
+                }
+                bad
+            });
+            match r {
+                Ok(bad) => {
+                    out.comparisons += 30;
+                    for b in bad {
+                        out.violate("C10", "iterator_protocol", b);
+                    }
+                }
+                Err(p) => out.violate("C10", "panic:iterator_protocol", format!("{} at {}", p.message, p.location)),
+            }
+        }
 
         record_checks(&ont, &f.recs, "", &mut rng, &mut out);
         if let Some(rt) = &reloaded {
